@@ -62,6 +62,7 @@ class UnitResult:
         self.wall_s = 0.0
         self.item_text = {}        # `kw Name` -> hash of the type definitions the unit extracts
         self.strlit_patterns = {}  # fn -> number of string-literal patterns in its text
+        self.bare_loops = {}       # fn -> number of loops without a template invariant
         self.bare_closures = {}    # fn -> closures without a contract (non-trivial bodies) in the extracted text
         self.unconfirmed = []      # failures of the full run that vanish when the function is verified alone (solver instability, not violations)
 
@@ -269,6 +270,7 @@ def check_unit(tpl_path, vacuity=True, keep=True):
     res.bare_closures = dict(unit.bare_closures)
     res.item_text = {k: sha(v) for k, v in unit.item_text.items()}
     res.strlit_patterns = dict(unit.strlit_patterns)
+    res.bare_loops = dict(unit.bare_loops)
     cmd, js, diags, wall, raw = run_verus(path)
     res.cmd = " ".join(cmd)
     if js is None:
